@@ -586,8 +586,76 @@ def r7_name_and_id_variants_agree(ctx):
     ctx.floor("name-keyed / id-keyed sibling pairs", n, 5)
 
 
+def r8_redeclaration_finds_its_variable_by_name(ctx):
+    """`make x get ..` in a scope that already has an x rebinds that x - the same variable, whatever the types involved - so that
+    a function defined between the two declarations and its block keep meaning the same thing by the name.  In the Assign arm
+    the search for the existing entry of the innermost scope compares names and nothing else."""
+    from .c09 import arm_region
+    arm = arm_region(ctx, "resolver::Resolver::check_stmt", "Assign")
+    if arm is None:
+        ctx.bad("redeclare|anchor", "src/resolver.rs", "cannot find the Assign arm of check_stmt")
+        return
+    fn, blocks = arm
+    ctx.touch(fn)
+    finds = [c for c in fn.calls() if c.block in blocks and (c.callee or "").split("::")[-1] in ("rposition", "position", "find", "rfind", "find_map") and "variable_scopes" in sh(ne(fn.deep(c.args[0])))]
+    if not finds:
+        ctx.bad("redeclare|no-search", fn.where(min(blocks)), "the Assign arm no longer searches the innermost scope for an existing entry of the name")
+        return
+    for c in finds:
+        txt = sh(ne(fn.deep(c.args[1]))) if len(c.args) > 1 else ""
+        m = re.search(r"\{closure#(\d+)\}", txt)
+        clo = ctx.lib.fns.get("%s::{closure#%s}" % (fn.id, m.group(1))) if m else None
+        if clo is None:
+            ctx.bad("redeclare|search-closure", fn.where(c.block), "cannot see the predicate the Assign arm searches the scope with")
+            continue
+        ctx.touch(clo)
+        eqs = [k for k in clo.calls() if (k.callee or "").split("::")[-1] in ("eq", "ne")]
+        extra = [k for k in eqs if "ValueType" in (k.callee or "") or "ValueType" in " ".join(clo.locals[(a.get("move") or a.get("copy") or {"l": 0})["l"]]["ty"] for a in k.args if isinstance(a, dict) and (a.get("move") or a.get("copy")))]
+        bins = [st for b in sorted(clo.live) for st in clo.blocks[b]["s"] if st["rv"]["k"] == "bin" and st["rv"]["op"] in ("Eq", "Ne")]
+        if extra or len(eqs) + len(bins) > 1:
+            ctx.bad("redeclare|search-by-more-than-name", fn.where(c.block), "the existing entry is looked for by name *and* another property (%d comparisons in the predicate%s): a redeclaration that does not match it creates a second variable of the same name in the same scope, and a function defined between the two declarations stays bound to the old one" % (len(eqs) + len(bins), ", one on the value type" if extra else ""))
+        else:
+            ctx.ok("redeclare|search-by-name", fn.where(c.block), "one comparison, on the name")
+
+
+def r9_function_reachability_ignores_dead_definitions(ctx):
+    """Functions are hoisted: one defined after a `return` is as callable as any other, and the runtime registers it.  Which
+    functions are 'never called' (and therefore removable) follows the call graph from the script body alone - it must not ask
+    whether the *statement* that defines a function is reachable, or everything called only from such a function is reported
+    unused, removed, and missing when the call happens."""
+    fn = ctx.lib.fns.get("analysis::diagnostics::compute_function_reachability")
+    if fn is None:
+        ctx.note("analysis::diagnostics::compute_function_reachability not found: clause not evaluated")
+        return
+    from ..mir import fields_read
+    from .c03 import natural_loop
+    ctx.touch(fn)
+    # the worklist loop: the natural loop around the pop of the worklist
+    pops = [c for c in fn.calls() if (c.callee or "").endswith("Vec::pop")]
+    body = set()
+    for c in pops:
+        for H in sorted(fn.live):
+            if fn.dominates(H, c.block):
+                nl = natural_loop(fn, H)
+                if c.block in nl:
+                    body |= nl
+    uses = []
+    import json as _json
+    for b_ in sorted(body):
+        if '"f": "def_stmt"' in _json.dumps(fn.blocks[b_]["s"]) + _json.dumps(fn.blocks[b_]["t"]):
+            uses.append((fn, b_, "the function's def_stmt inside the worklist loop"))
+    if not pops:
+        ctx.bad("function-reachability|shape", fn.where(), "compute_function_reachability no longer works through a worklist")
+        return
+    if uses:
+        g, b, what = uses[0]
+        ctx.bad("function-reachability|asks-statement-reachability", g.where(b), "the reachability of functions consults %s: a function whose definition stands in dead code (after a return) is still hoisted and callable at run time, but its callees are no longer followed - a helper called only from there is reported 'never called', removed from the plan's point of view, and the call panics on a function that was never registered" % what)
+    else:
+        ctx.ok("function-reachability|call-graph-only", fn.where(), "follows calls from the script body without regard to statement reachability")
+
+
 RULES = [("C04-R1", r1_id_directed_lookup), ("C04-R2", r2_innermost_first), ("C04-R3", r3_sorted_tables), ("C04-R4", r4_scope_discipline), ("C04-R4b", r4b_arguments_belong_to_the_caller), ("C04-R4c", r4c_initialiser_sees_the_old_scope), ("C04-R4d", r4d_declarations_stay_in_their_block),
-         ("C04-R5", r5_recorded_is_consumed), ("C04-R5b", r5b_record_unconditional), ("C04-R5c", r5c_query_on_the_variable_node), ("C04-R6", r6_hoisting_asks_the_right_table), ("C04-R7", r7_name_and_id_variants_agree)]
+         ("C04-R5", r5_recorded_is_consumed), ("C04-R5b", r5b_record_unconditional), ("C04-R5c", r5c_query_on_the_variable_node), ("C04-R6", r6_hoisting_asks_the_right_table), ("C04-R7", r7_name_and_id_variants_agree), ("C04-R8", r8_redeclaration_finds_its_variable_by_name), ("C04-R9", r9_function_reachability_ignores_dead_definitions)]
 
 EXPLANATION = (
     "R1: at run time every name-keyed accessor is reachable only on the None outcome of the matching binding query and every "
